@@ -975,6 +975,24 @@ func rulePipelineConsts(c *Ctx) {
 			return true
 		})
 		c.Check(okMod, "const:ring-index", p.Pos(sfd), "slot = counter % indexSlots", "the producer does not select its slot modulo indexSlots", "")
+		// consecutive buffers use consecutive slots: the counter advances by exactly one per buffer, and the slot is
+		// computed from that counter
+		okStep, nStep := true, 0
+		ast.Inspect(sfd.Body, func(n ast.Node) bool {
+			call, ok := n.(*ast.CallExpr)
+			if !ok || !strings.HasSuffix(p.CalleeName(call), "atomic.AddUint64") || len(call.Args) != 2 {
+				return true
+			}
+			if !strings.Contains(p.Str(call.Args[0]), "buffersOffset") {
+				return true
+			}
+			nStep++
+			if k, ok := p.ConstInt(call.Args[1]); !ok || k != 1 {
+				okStep = false
+			}
+			return true
+		})
+		c.Check(okStep && nStep == 1, "const:ring-step", p.Pos(sfd), "the buffer counter advances by exactly 1 per index buffer", "the producer does not advance the ring counter by exactly one per buffer: with a larger step a slot is reused while it can still be queued (the cap+2 <= slots argument assumes consecutive slots)", "a document with more than 8 index buffers and a slow consumer")
 	}
 	// synchronous branch: all sends happen before any receive. A non-final buffer holds >= safe entries of which at most one
 	// refers to an earlier byte, every entry is a distinct input byte: sends <= ceil(T/(safe-1)) + 1 (terminator).
@@ -1308,10 +1326,15 @@ func ruleCursor(c *Ctx) {
 			}
 		}
 		a, single := sp.Ret[0].SingleAtom()
+		exhausted := hasCond(sp, "P:pj.indexesChan.index", token.GEQ, "P:pj.indexesChan.length")
+		available := hasCond(sp, "P:pj.indexesChan.index", token.LSS, "P:pj.indexesChan.length")
 		if sp.Ret[0].IsConst() && sp.Ret[0].K == 0 {
+			if !exhausted {
+				okPeek = false // 0 only when the buffer is exhausted (index >= length)
+			}
 			continue
 		}
-		if !single || a != "P:pj.indexesChan.indexes[P:pj.indexesChan.index]" {
+		if !single || a != "P:pj.indexesChan.indexes[P:pj.indexesChan.index]" || !available {
 			okPeek = false
 		}
 	}
